@@ -519,6 +519,7 @@ func checkLoadNormalisation(w *World, r *Report) {
 		}
 	}
 	r.Check(okIdx, "index.insert-once", FuncName(loadFn)+": index insertion", w.InstrPos(mapCall), "every path of the loop body inserts the built job exactly once into the id index (key: its ID) and the pipeline index (key: its Pipeline)", detail+": a persisted job is lost or duplicated by the restart")
+	loadEveryJob(w, r, "index.every-stored-job", loadFn, mapCall)
 	// loading does not touch the wait list
 	touches := false
 	for _, f := range withClosures(loadFn) {
@@ -585,6 +586,108 @@ func checkLoadNormalisation(w *World, r *Report) {
 }
 
 // evalBoolTerm evaluates a returned boolean access path ("true", "false", "!x", "x").
+// runTableOf evaluates the per-job running predicate on the 8 valuations of (started,
+// completed, canceled); nil with a reason when it reads anything else.
+func runTableOf(w *World, isRunning *ssa.Function) (map[[3]int64]int64, string) {
+	if isRunning == nil {
+		return nil, "running predicate not found"
+	}
+	runVars := map[string]string{"recv.Start": "startptr", "recv.Completed": "completed", "recv.Canceled": "canceled"}
+	rp := w.EnumPaths(isRunning, EnumOpts{})
+	out := map[[3]int64]int64{}
+	for _, s := range []int64{0, 1} {
+		for _, c := range []int64{0, 1} {
+			for _, x := range []int64{0, 1} {
+				env := map[string]int64{"startptr": s, "completed": c, "canceled": x}
+				p, why := selectPath(rp.Paths, runVars, env)
+				if p == nil || len(p.Ret) != 1 {
+					return nil, "cannot evaluate the running predicate: " + why
+				}
+				v, err := evalBoolTerm(p.Ret[0], runVars, env)
+				if err != "" {
+					return nil, "cannot evaluate result " + p.Ret[0] + ": " + err
+				}
+				out[[3]int64{s, c, x}] = v
+			}
+		}
+	}
+	return out, ""
+}
+
+// loadAnchors finds the load mapper (PersistedJob → *PipelineJob) and the function calling it.
+func loadAnchors(w *World) (loadFn *ssa.Function, mapCall *ssa.Call) {
+	jobT := w.NamedType("", "PipelineJob")
+	if jobT == nil {
+		return nil, nil
+	}
+	var mapper *ssa.Function
+	for _, fn := range w.ModFuncs {
+		if fn.Parent() != nil || fn.Package() != w.Pkg("") {
+			continue
+		}
+		sig := fn.Signature
+		if sig.Recv() == nil && sig.Params().Len() == 1 && sig.Results().Len() == 1 &&
+			typeShort(sig.Params().At(0).Type()) == "PersistedJob" && namedOf(sig.Results().At(0).Type()) != nil && namedOf(sig.Results().At(0).Type()).Obj() == jobT.Obj() {
+			mapper = fn
+		}
+	}
+	if mapper == nil {
+		return nil, nil
+	}
+	for _, fn := range w.ModFuncs {
+		for _, ci := range findCalls(fn, func(_ string, c *ssa.CallCommon) bool { return c.StaticCallee() == mapper }) {
+			if c, ok := ci.(*ssa.Call); ok {
+				loadFn, mapCall = fn, c
+			}
+		}
+	}
+	return loadFn, mapCall
+}
+
+// loadEveryJob: no iteration of the load loop skips the mapper call — every stored job is
+// built (and, by index.insert-once, registered), so that it is reported, saved again and,
+// when retention removes it, removed together with its logs.
+func loadEveryJob(w *World, r *Report, rule string, loadFn *ssa.Function, mapCall *ssa.Call) {
+	if loadFn == nil || mapCall == nil {
+		r.Undecided(rule, "load loop", "-", "load function or mapper call not found")
+		return
+	}
+	// the innermost loop header that dominates the mapper call
+	var header *ssa.BasicBlock
+	for _, b := range loadFn.Blocks {
+		if !b.Dominates(mapCall.Block()) || b == mapCall.Block() && false {
+			continue
+		}
+		isHeader := false
+		for _, p := range b.Preds {
+			if b.Dominates(p) {
+				isHeader = true
+			}
+		}
+		if isHeader && (header == nil || header.Dominates(b)) {
+			header = b
+		}
+	}
+	if header == nil {
+		r.Viol(rule, FuncName(loadFn)+": load loop", w.InstrPos(mapCall), "the load mapper is not called in a loop: at most one stored job is restored")
+		return
+	}
+	isBack := func(in ssa.Instruction) bool {
+		b := in.Block()
+		if in != b.Instrs[len(b.Instrs)-1] || !header.Dominates(b) {
+			return false
+		}
+		for _, s := range b.Succs {
+			if s == header {
+				return true
+			}
+		}
+		return false
+	}
+	res := PathQuery{Fn: loadFn, Start: []ssa.Instruction{header.Instrs[0]}, Target: isBack, BlockInstr: func(in ssa.Instruction) bool { return in == ssa.Instruction(mapCall) }}.Find()
+	r.Check(!res.Found, rule, FuncName(loadFn)+": every stored job is built", w.InstrPos(mapCall), "every iteration of the load loop passes the mapper call (no stored job is skipped)", "an iteration of the load loop can reach the next one without building the job ("+res.String()+"): a stored job is silently dropped at start-up — it vanishes from the API and the next save, and its logs are never removed")
+}
+
 func evalBoolTerm(t string, vars map[string]string, env map[string]int64) (int64, string) {
 	neg := false
 	for strings.HasPrefix(t, "!") {
